@@ -434,6 +434,20 @@ theorem FromDom.createAndFill_toOption (S : Schema) : ∀ (fuel : Nat) (t : Type
         rw [← ih, ← mapRes_toOption (FromDom.createAndFill S fuel) tys]
         cases hr : FromDom.mapRes (FromDom.createAndFill S fuel) tys <;> rfl
 
+/-- the parser's `fill_before` nodes, forgetting which exception = the Fitter's -/
+theorem FromDom.fillNodes_toOption (S : Schema) (d : Dfa) (q : Nat) (after : List TypeId) (toEnd : Bool) :
+    (FromDom.fillNodes S d q after toEnd).toOption = fillBeforeNodes S d q after toEnd := by
+  unfold FromDom.fillNodes fillBeforeNodes
+  simp only [fillBeforeTypes]
+  cases hf : fillBefore d S.generatable q after toEnd with
+  | none => rfl
+  | some tys =>
+    simp only
+    have ih : (fun a => (FromDom.createAndFill S (S.nodes.size + 1) a).toOption) =
+        PM.createAndFill S (S.nodes.size + 1) := funext (FromDom.createAndFill_toOption S _)
+    rw [← ih, ← mapRes_toOption (FromDom.createAndFill S (S.nodes.size + 1)) tys]
+    cases hr : FromDom.mapRes (FromDom.createAndFill S (S.nodes.size + 1)) tys <;> rfl
+
 /-- "a node or not" of an explicit outcome -/
 def Built.toOption : Built → Option Node
   | .node n => some n
